@@ -50,6 +50,7 @@ class Sub:
         self.rt = None
         self.doc = None
         self.text0 = None
+        self.initial = None  # initial_value passed to subscribe (the events, not it, are the root values)
 
 
 def run_one(seed, preset=None, tier="quick", want_case=False):
@@ -89,6 +90,8 @@ def run_one(seed, preset=None, tier="quick", want_case=False):
             s.refused = "variables" if probe.refused and not probe.var_ambiguous else None
             if s.refused is None:
                 s.variables = gen_variables(schema, Tape(seed, preset), op, stream="vars%d" % i, null_pct=0)
+        if ot.chance(40):
+            s.initial = {"_decoy_initial_value": i}
         if not s.refused:
             for k in range(ot.rint(0, 4 if tier == "quick" else 9)):
                 none_root = ot.chance(10)
@@ -138,7 +141,8 @@ def run_one(seed, preset=None, tier="quick", want_case=False):
             ctx = ReqCtx(s.rt)
             await loop.gate(("client", s.rid))
             try:
-                async for resp in engine.subscribe(s.text, operation_name=s.op_name, context=ctx, variables=copy.deepcopy(s.variables)):
+                kw = {"initial_value": s.initial} if s.initial is not None else {}
+                async for resp in engine.subscribe(s.text, operation_name=s.op_name, context=ctx, variables=copy.deepcopy(s.variables), **kw):
                     loop.ev("response", s.rid, len(s.responses))
                     s.responses.append(resp)
                     await loop.point(("consumer", s.rid, len(s.responses)))
@@ -206,6 +210,7 @@ def run_one(seed, preset=None, tier="quick", want_case=False):
                         viol.append(V("source_arguments", "%s: source received %r, coerced arguments are %r" % (lab, s.rt.source_args[0], exp_args)))
                 for k, ((payload, plan), resp) in enumerate(zip(s.events, s.responses)):
                     s.rt.calls = s.rt.event_calls[k] if k < len(s.rt.event_calls) else []
+                    s.rt.seen_roots = s.rt.event_roots[k] if k < len(s.rt.event_roots) else []
                     for v in check_against_plan(None, plan, resp, s.rt, []):
                         v["detail"] = "%s event %d: %s" % (lab, k, v["detail"])
                         viol.append(v)
